@@ -9,7 +9,9 @@ Both schemas of a pair are built through SDL *and* through the constructors, und
 orders each, diffed in-process, and diffed again (SDL-built) in child interpreters running under
 PYTHONHASHSEED = 0..3 (quick) / 0..7 (thorough).
 
-Oracles (reference side: mc/ref/diff.py, all own code over the plain-data model):
+Oracles (reference side: mc/ref/diff.py, all own code over the plain-data model); (b) and (c) are
+evaluated on the change sequence of each construction route (only the constructor route can carry enum
+members whose Python value differs from their name):
   (a) structurally equal models (any definition order, any route)  =>  no change reported;
   (b) every elementary difference found by the reference differ is matched by a reported change of
       the right class whose message names the edited element;
@@ -67,7 +69,7 @@ BOUNDS = {
         "edits_per_pair": 1,
         "wrapper_list_levels": 2,
         "wrapper_position_kinds": 5,
-        "pairs": "set-like edits on base 'members' only",
+        "pairs": "set-like edits on base 'members'; on 'kitchen' all pairs of edits on ONE element (field incl. arguments and deprecation, interface field retyped with its implementations, input field, directive) in which one edit is a retype",
         "hash_seeds": 4,
         "definition_orders": 3,
     },
@@ -124,6 +126,70 @@ def _owner(e):
     return None
 
 
+def _element(e):
+    """the single element (field with its arguments and deprecation / input field / directive) an edit works on."""
+    if e["op"] == "retype-cascade":
+        return ("field", e["interface"], e["field"])
+    if "at" in e:
+        at = e["at"]
+        if at[0] in ("field", "arg"):
+            return ("field", at[1], at[2])
+        if at[0] == "input-field":
+            return ("input-field", at[1], at[2])
+        if at[0] == "directive-arg":
+            return ("directive", at[1])
+        return None
+    if e["op"] in ("add-directive-arg", "add-location", "remove-location"):
+        return ("directive", e["directive"])
+    return None
+
+
+def _same_element_pairs(base):
+    """
+    all pairs (i < j) of single edits on ONE element in which at least one edit is a retype; per position
+    two retypes are used: the first named alternative and the first one-step wrapper change the
+    reference calls unsafe.
+    """
+    from mc.ref import diff as R2
+
+    sm = cs_bases.get(base)
+    es = _edit_list(base)
+    keep = []
+    seen_pos = {}
+    for i, e in enumerate(es):
+        if e["op"] in ("retype", "retype-cascade"):
+            if e["op"] == "retype":
+                pos = tuple(e["at"])
+                old_t = cs_edits.get_pos(sm, e["at"])["type"]
+                direction = "output" if e["at"][0] == "field" else "input"
+            else:
+                pos = ("cascade", e["interface"], e["field"])
+                old_t = cs_edits.get_pos(sm, ["field", e["interface"], e["field"]])["type"]
+                direction = "output"
+            named_change = M.named(old_t) != M.named(e["to"])
+            unsafe = R2.breach(old_t, e["to"], direction) is not None
+            slot = "named" if named_change else ("unsafe" if unsafe else None)
+            if slot is None or (pos, slot) in seen_pos:
+                continue
+            seen_pos[(pos, slot)] = i
+        keep.append(i)
+    by = {}
+    for i in keep:
+        el = _element(es[i])
+        if el is not None:
+            by.setdefault(el, []).append(i)
+    pairs = []
+    for el, idx in by.items():
+        for a in range(len(idx)):
+            for b in range(a + 1, len(idx)):
+                i, j = idx[a], idx[b]
+                if es[i]["op"] in ("retype", "retype-cascade") or es[j]["op"] in ("retype", "retype-cascade"):
+                    if es[i].get("at") == es[j].get("at") and es[i]["op"] == es[j]["op"]:
+                        continue  # two retypes of the same position
+                    pairs.append((i, j))
+    return pairs
+
+
 def _edit_list(base, reduced=False):
     sm = cs_bases.get(base)
     es = cs_edits.single_edits(sm, wrappers=not reduced)
@@ -159,6 +225,11 @@ def _cases(tier):
         idx = [i for i, e in enumerate(es) if cs_edits.edit_kind(e) in SETLIKE]
         for i in idx:
             yield {"fam": "pair", "base": "members", "i": i, "js": [j for j in idx if j > i], "reduced": False}
+        # several edits on ONE element (a field with its arguments and deprecation, an input field, a directive)
+        sp = _same_element_pairs("kitchen")
+        firsts = sorted(set(i for i, _ in sp))
+        for i in firsts:
+            yield {"fam": "pair", "base": "kitchen", "i": i, "js": [j for a, j in sp if a == i], "reduced": False}
         return
     for b in bases:
         reduced = b == "kitchen"
@@ -426,89 +497,104 @@ def _inproc(item, st):
 
     # (a)
     if not ref and not roots_changed and M.canon(M.strip_runtime(old_sm)) == M.canon(M.strip_runtime(new_sm)):
+        # identical from the client's view; the models may still differ in runtime attributes
+        # (Python values of enum members), which only the constructor route can express
+        cls_a = "equal-schemas-differ" if M.canon(old_sm) == M.canon(new_sm) else "equal-schemas-differ:only-python-enum-values-differ"
         for key, seq in seqs.items():
             if seq:
-                out.append(("equal-schemas-differ", "%s reports %s for structurally equal schemas %s" % (key, seq, desc)))
+                names = sorted(set(x[0] for x in seq))
+                what = "default-value-changes" if all(n.endswith("DefaultValueChange") for n in names) else "+".join(names)
+                cls_here = cls_a if cls_a == "equal-schemas-differ" else "%s:%s" % (cls_a, what)
+                out.append((cls_here, "%s reports %s for schemas that are equal from the client's view: %s" % (key, seq, desc)))
                 break
 
-    # (b)
-    for r in ref:
-        hit = False
-        for cls, sev, msg in base_seq:
-            if cls in r["classes"] and all(n in _TOKEN.findall(msg) for n in r["names"]):
-                hit = True
-                break
-        if st is not None:
-            st.n("ref_differences")
-        if not hit:
-            key = "edit-unreported:" + r["kind"]
-            if "ref_safe" in r:
-                # retypes: separate the documented design decision (changes the reference also
-                # considers safe are not reported at all) from unsafe changes that go unreported
-                direction = "output" if r["kind"] == "retype:field" else "input"
-                if r["ref_safe"]:
-                    key = "edit-unreported:retype:ref-safe:%s-position" % direction
-                else:
-                    key = "edit-unreported:retype:ref-unsafe:%s:%s" % (direction, r.get("breach"))
-            if r.get("reason") == "":
-                key += ":empty-reason"
-            if "-default:" in r["kind"] and any(q["kind"].startswith("retype:") and q["names"] == r["names"] for q in ref):
-                # default change on an element that was retyped at the same time
-                key = "edit-unreported:default-change-with-retype:" + r["kind"].split(":")[1]
-            out.append((key, "no %s naming %s among %s for %s" % ("/".join(r["classes"]), r["names"], [x[2] for x in base_seq], desc)))
-
-    # (c)
-    breaking = [x for x in base_seq if x[1] == "BREAKING"]
-    mb = R.must_break(old_sm, new_sm)
-    if st is not None and breaking and not mb:
-        st.n("conservative_breaking_reports")
-    if not breaking:
-        for kind in sorted(set(k for k, _ in mb)):
-            out.append(
-                (
-                    "unsound:" + kind,
-                    "no BREAKING change reported (%s) although %s for %s" % ([x[2] for x in base_seq], [d for k, d in mb if k == kind], desc),
-                )
-            )
-        from py_gql.validation import validate_ast
-
-        ops, dropped = _valid_ops(base, old_sm, olds[("sdl", 0)])
-        if st is not None:
-            st.n("c3_pairs_checked_with_operations")
-            st.mx("operations_per_schema", len(ops))
-            st.mx("generated_operations_invalid_against_old", dropped)
-        # only operations touching a type / directive the edit touches can change verdict
-        # (cs_ops.USES); root operation changes and schema-level edits run the whole set
-        touched = set()
+    # (b) and (c) for the change sequence of each construction route (the constructor route is the only
+    # one that can carry enum members whose Python value differs from their name)
+    for route_j in cs_diffrun.ROUTES:
+        base_seq = seqs[(route_j, 0, 0)]
+        if route_j != "sdl" and base_seq == seqs[("sdl", 0, 0)]:
+            continue
+        n_before = len(out)
+        # (b)
         for r in ref:
-            touched.update(r["names"])
-            touched.update("@" + n for n in r["names"])
-        run_all = roots_changed or not ref
-        broken = []
-        for tag, text, ast in ops:
-            if not run_all and tag != "root" and not (touched & set(_OPS_USES[base].get(text, ()))):
-                continue
+            hit = False
+            for cls, sev, msg in base_seq:
+                if cls in r["classes"] and all(n in _TOKEN.findall(msg) for n in r["names"]):
+                    hit = True
+                    break
             if st is not None:
-                st.n("operation_validations")
-            try:
-                errs = validate_ast(news[("sdl", 0)], ast).errors
-            except Exception as e:  # noqa
-                errs = [e]
-            if errs:
-                broken.append((tag, text, str(errs[0])))
-        if broken:
-            if mb:
-                if st is not None:
-                    st.n("c3_static_breach_confirmed_by_operation")
-            else:
+                st.n("ref_differences")
+            if not hit:
+                key = "edit-unreported:" + r["kind"]
+                if "ref_safe" in r:
+                    # retypes: separate the documented design decision (changes the reference also
+                    # considers safe are not reported at all) from unsafe changes that go unreported
+                    direction = "output" if r["kind"] == "retype:field" else "input"
+                    if r["ref_safe"]:
+                        key = "edit-unreported:retype:ref-safe:%s-position" % direction
+                    else:
+                        key = "edit-unreported:retype:ref-unsafe:%s:%s" % (direction, r.get("breach"))
+                if r.get("reason") == "":
+                    key += ":empty-reason"
+                if "-default:" in r["kind"] and any(q["kind"].startswith("retype:") and q["names"] == r["names"] for q in ref):
+                    # default change on an element that was retyped at the same time
+                    key = "edit-unreported:default-change-with-retype:" + r["kind"].split(":")[1]
+                out.append((key, "no %s naming %s among %s for %s" % ("/".join(r["classes"]), r["names"], [x[2] for x in base_seq], desc)))
+
+        # (c)
+        breaking = [x for x in base_seq if x[1] == "BREAKING"]
+        mb = R.must_break(old_sm, new_sm)
+        if st is not None and breaking and not mb:
+            st.n("conservative_breaking_reports")
+        if not breaking:
+            for kind in sorted(set(k for k, _ in mb)):
                 out.append(
                     (
-                        "op-invalidated:unexplained",
-                        "no BREAKING change reported and the reference sees no breach, yet %r (valid before) fails: %s; %s" % (broken[0][1], broken[0][2], desc),
+                        "unsound:" + kind,
+                        "no BREAKING change reported (%s) although %s for %s" % ([x[2] for x in base_seq], [d for k, d in mb if k == kind], desc),
                     )
                 )
-        elif mb and st is not None:
-            st.n("c3_static_breach_without_invalidated_operation")
+            from py_gql.validation import validate_ast
+
+            ops, dropped = _valid_ops(base, old_sm, olds[("sdl", 0)])
+            if st is not None:
+                st.n("c3_pairs_checked_with_operations")
+                st.mx("operations_per_schema", len(ops))
+                st.mx("generated_operations_invalid_against_old", dropped)
+            # only operations touching a type / directive the edit touches can change verdict
+            # (cs_ops.USES); root operation changes and schema-level edits run the whole set
+            touched = set()
+            for r in ref:
+                touched.update(r["names"])
+                touched.update("@" + n for n in r["names"])
+            run_all = roots_changed or not ref
+            broken = []
+            for tag, text, ast in ops:
+                if not run_all and tag != "root" and not (touched & set(_OPS_USES[base].get(text, ()))):
+                    continue
+                if st is not None:
+                    st.n("operation_validations")
+                try:
+                    errs = validate_ast(news[(route_j, 0)], ast).errors
+                except Exception as e:  # noqa
+                    errs = [e]
+                if errs:
+                    broken.append((tag, text, str(errs[0])))
+            if broken:
+                if mb:
+                    if st is not None:
+                        st.n("c3_static_breach_confirmed_by_operation")
+                else:
+                    out.append(
+                        (
+                            "op-invalidated:unexplained",
+                            "no BREAKING change reported and the reference sees no breach, yet %r (valid before) fails: %s; %s" % (broken[0][1], broken[0][2], desc),
+                        )
+                    )
+            elif mb and st is not None:
+                st.n("c3_static_breach_without_invalidated_operation")
+        for k_ in range(n_before, len(out)):
+            out[k_] = (out[k_][0], out[k_][1] + " [%s-built schemas]" % route_j)
     return "ok", out, {"sdl": seqs[("sdl", 0, 0)], "code": seqs[("code", 0, 0)]}
 
 
